@@ -260,3 +260,29 @@ def check_edge_delete_flags_suppliers(ctx, consequence: str):
             if re.search(r"UPDATE step SET _check_after = 1", stmt) and re.search(r"SELECT source FROM dependency WHERE sink = OLD \. source", stmt):
                 ok = True
     ctx.check(ok, "step.STEP_SCHEMA", "deleting an edge flags the producers of its source file (two hops upstream of the lost consumer)", consequence, "trigger flags suppliers of OLD.source", where="trigger " + ", ".join(t.name for t in trigs))
+
+
+def check_targets_reconciled_after_resume(ctx, consequence: str):
+    """director.serve: on a resumed database the startup rescans (which re-pend an edited plan.py) run before the
+    targets are reconciled; `_creator_chain_pending` decides from those states whether a target in a forbidden
+    state is an error or will be re-declared."""
+    sv = ctx.prog.func("director.serve")
+    n = 0
+    for tr, st in flow.paths_of(sv):
+        k_rec = [k for k, e in enumerate(tr) if e[0] == "call" and e[1].endswith("reconcile_targets")]
+        if not k_rec:
+            continue
+        tests = [(e[1], e[2]) for e in tr[:k_rec[0]] if e[0] == "test"]
+        k_res = [k for k, e in enumerate(tr) if e[0] == "call" and e[1] == "resume_from_db"]
+        k_boot = [k for k, e in enumerate(tr) if e[0] == "call" and e[1].endswith("initialize_boot")]
+        k_run = [k for k, e in enumerate(tr) if e[0] == "call" and e[1] == "_run_tasks"]
+        resumed = ("initialized", False) in tests or bool(k_res)
+        n += 1
+        ok = bool(k_boot) and k_boot[0] < k_rec[0] and (not k_run or k_rec[0] < k_run[0])
+        if resumed or ("initialized", True) not in tests:
+            # the path on which the database is resumed: the rescan must already have happened
+            if ("initialized", True) not in tests:
+                ok = ok and bool(k_res) and k_res[0] < k_rec[0]
+        ctx.check(ok, sv.fq, "targets are reconciled after boot and, on a resumed database, after the startup rescans; before the first tick", consequence, "boot -> resume_from_db -> reconcile_targets -> run", where=ctx.where_of(sv))
+    if n == 0:
+        raise AnalysisError("director.serve no longer reconciles targets")
